@@ -648,6 +648,10 @@ class SpecMixin:
         if name == 'has':      # has(m, k): key present in map
             m = self.sev(env, args[0]); kx = self.mapkey(env.st, self.sev(env, args[1]))
             return z3.Select(m.dom, kx)
+        if name in ('copiedFrom', 'copiedBy') and hasattr(self, 'callghost'):
+            # the abstract calls of f.typ.copy recorded by the JavaScript executor: copiedFrom(a) = b, copiedBy(a) = the type
+            x = self.sev(env, args[0])
+            return z3.Select(self.callghost(env.st, 'copy', 'from' if name == 'copiedFrom' else 'by'), x)
         if name in self.spec.pures:
             return self.spec_pure(env, name, [self.sev(env, a) for a in args])
         if name in getattr(self, 'ghost_funcs', {}):
